@@ -33,11 +33,11 @@ import (
 // reuse describes an object type that can be decoded into repeatedly.
 type reuse struct {
 	name    string
-	n       int                        // number of different valid encodings
-	enc     func(i int) []byte         // i-th valid encoding
-	newObj  func() any                 // zero object
+	n       int                         // number of different valid encodings
+	enc     func(i int) []byte          // i-th valid encoding
+	newObj  func() any                  // zero object
 	dec     func(o any, b []byte) error // decode into o
-	observe func(o any) string         // everything a caller can observe afterwards (exercises lazily cached fields)
+	observe func(o any) string          // everything a caller can observe afterwards (exercises lazily cached fields)
 }
 
 func sd(n int, tag uint64) []byte {
